@@ -46,6 +46,14 @@ def _load_variants():
             for prop in (det if isinstance(det, list) else [det]):
                 vs.append(dict(id='seeded/%s@%s' % (name, prop), prop=prop, patch=pp, expect='*',
                                note='independent seeded change'))
+    # behaviour-preserving refactorings written independently by sub-agents (suite passes and a
+    # before/after behaviour dump is identical): every check must stay silent on each of them
+    rd = os.path.join(core.VERIF_DIR, 'refactors')
+    if os.path.isdir(rd):
+        for name in sorted(os.listdir(rd)):
+            if name.endswith('.diff'):
+                vs.append(dict(id='refactor/%s' % name[:-5], prop='*', patch=os.path.join(rd, name),
+                               expect='SILENT', note='behaviour-preserving refactoring'))
     return vs
 
 
@@ -119,6 +127,14 @@ def _one_patch(v, root):
         known = {k['key'] for k in core.load_known_findings()
                  if k.get('property') == v['prop'] and k.get('status') == 'known'}
         ref = [o for o in ctx.obs if o.verdict == core.REFUTED and o.key() not in known]
+        if v.get('expect') == 'SILENT':
+            unk = [o for o in ctx.obs if o.verdict == core.UNKNOWN]
+            low = ctx.floor_failures() if hasattr(ctx, 'floor_failures') else []
+            if ref or unk or low:
+                o = (ref or unk or [None])[0]
+                return (v['id'], 'missed', 'benign refactoring raised an alarm: %s' % (
+                    ('%s %s' % (o.rule, o.reason[:100])) if o else 'floor %s' % low))
+            return (v['id'], 'detected', 'benign refactoring stays silent')
         if ref:
             return (v['id'], 'detected', '%s: %s' % (ref[0].rule, ref[0].reason[:120]))
         return (v['id'], 'missed', 'no refuted obligation')
@@ -127,7 +143,13 @@ def _one_patch(v, root):
 
 
 def run_collect(props):
-    vs = [v for v in _load_variants() if not props or v['prop'] in props]
+    vs = []
+    for v in _load_variants():
+        if v['prop'] == '*':
+            for p in (props or ['C%02d' % i for i in range(1, 21)]):
+                vs.append(dict(v, prop=p, id='%s@%s' % (v['id'], p)))
+        elif not props or v['prop'] in props:
+            vs.append(v)
     if not vs:
         return []
     n = min(16, len(vs))
